@@ -160,8 +160,12 @@ func sortSpecs(fset *token.FileSet, f *File, specs []Spec) []Spec {
 		if i == len(specs)-1 || !collapse(s, specs[i+1]) {
 			deduped = append(deduped, s)
 		} else {
+			// the line of a dropped duplicate is merged with the next one, if there is a next one
+			// (import ("a"; "a") at the end of a file has none)
 			p := s.Pos()
-			fset.File(p).MergeLine(fset.Position(p).Line)
+			if file, line := fset.File(p), fset.Position(p).Line; line < file.LineCount() {
+				file.MergeLine(line)
+			}
 		}
 	}
 	specs = deduped
